@@ -3,7 +3,7 @@
 Amplitudes are JSON lists: ["s", id] for the symbol x<id>, or [re_num, re_den, im_num, im_den].
 All numeric values are dyadic with one of the two parts zero, so that numpy's |a|**2 and the sums are exact.
 """
-import json, os, tempfile
+import copy, json, os, tempfile
 import numpy as np
 import sympy
 from hlib import *
@@ -11,7 +11,11 @@ from orquestra.quantum.wavefunction import (Wavefunction, flip_wavefunction, fli
                                             save_wavefunction, load_wavefunction)
 
 H = Harness("C12", ["OQ.Base.CaseEq", "OQ.State.Wavefunction", "OQ.State.WavefunctionCases"],
-            "kinds: history (1-20 operations on 0-4 qubits; numeric / symbolic / mixed initial vectors given as list, "
+            "kinds: multi (several objects built by the SAME constructor call - dicke_state(n,k), zero_state(n), Wavefunction of "
+            "one shared list / tuple / float ndarray / Matrix, bind of one receiver, load of one file - created before, "
+            "between and after accepted and rejected assignments on one of them; EVERY object is re-read after EVERY step "
+            "and compared with its own independent model run; every construction, also the later ones, must equal the "
+            "first and, for dicke_state, have exactly the weight-k support with one amplitude), history (1-20 operations on 0-4 qubits; numeric / symbolic / mixed initial vectors given as list, "
             "tuple, ndarray or sympy Matrix; element, list-at-index (sympy spill) and slice assignments incl. negative / overflowing bounds, broadcast, "
             "wrong lengths, symbols into numpy storage, out-of-range indices; bind with valid, invalid, partial, renaming "
             "and absent-symbol maps; after EVERY step outcome + backing + full amplitude snapshot are compared with the "
@@ -310,10 +314,116 @@ def gen_history(rng):
                 wf = res
     return dict(kind="history", container=cont, init=init, ops=ops)
 
+
+# ----------------------------------------------------------------------------- several objects from one constructor call
+def build_source(src, tmpdir):
+    """-> (construct, receiver or None).  Every call of construct() repeats the SAME constructor call: same arguments,
+    same source container object, same receiver, same file.  (A complex ndarray handed to Wavefunction(...) is stored
+    without a copy - documented aliasing of a caller's buffer - and is therefore not used as a shared source.)"""
+    t = src["src"]
+    if t == "zero":
+        return (lambda: Wavefunction.zero_state(src["n"])), None
+    if t == "dicke":
+        return (lambda: Wavefunction.dicke_state(src["n"], src["k"])), None
+    if src["container"] == "farray":
+        cont = np.array([float(parts(a)[0]) for a in src["v"]], dtype=float)
+    else:
+        cont = container(src["container"], src["v"])
+    if t == "list":
+        return (lambda: Wavefunction(cont)), None
+    recv = Wavefunction(cont)
+    if t == "bind":
+        mp = {sympy.Symbol(f"x{k}"): amp_py(v) for k, v in src["m"]}
+        return (lambda: recv.bind(mp)), recv
+    if t == "load":
+        fn = os.path.join(tmpdir, "shared.json")
+        save_wavefunction(recv, fn)
+        return (lambda: load_wavefunction(fn)), recv
+    raise ValueError(t)
+
+def source_coq(src, v_dicke):
+    t = src["src"]
+    if t == "zero":
+        return f"(SrcList false {amps_coq([num(1)] + [num(0)] * (2 ** src['n'] - 1))})"
+    if t == "dicke":
+        return f"(SrcDicke {cz(src['n'])} {cz(src['k'])} {amps_coq(v_dicke)})"
+    col = cbool(src["container"] == "matrix")
+    if t == "list":
+        return f"(SrcList {col} {amps_coq(src['v'])})"
+    if t == "bind":
+        return f"(SrcBind {col} {amps_coq(src['v'])} " + clist(src["m"], lambda kv: cpair(f"{int(kv[0])}%positive", amp_coq(kv[1]))) + ")"
+    return f"(SrcLoad {col} {amps_coq(src['v'])})"
+
+def gen_multi(rng):
+    r = rng.random()
+    if r < 0.45:
+        n = rng.choice([1, 2, 2, 3, 3, 4, 4])
+        src = dict(src="dicke", n=n, k=rng.randint(1, n) if rng.random() < 0.9 else 0)
+    elif r < 0.55:
+        src = dict(src="zero", n=rng.randint(1, 4))
+    elif r < 0.72:
+        flav = rng.choice(["numeric", "numeric", "mixed", "symbolic"])
+        v = make_vector(rng, 2 ** rng.randint(1, 4), flav, True)
+        if flav == "numeric":
+            cont = rng.choice(["list", "tuple", "farray", "matrix"])
+            if cont == "farray" and any(parts(a)[1] != 0 for a in v):
+                cont = "list"
+        else:
+            cont = rng.choice(["list", "matrix"])
+        src = dict(src="list", container=cont, v=v)
+    elif r < 0.87:
+        v = make_vector(rng, 2 ** rng.randint(1, 3), rng.choice(["mixed", "symbolic"]), True)
+        bop = None
+        for _ in range(20):
+            bop = gen_op(rng, dict(b="mat", a=v))
+            if bop["op"] == "bind":
+                break
+        m = bop["m"] if bop and bop["op"] == "bind" else [[1, num(0)]]
+        src = dict(src="bind", container=rng.choice(["list", "matrix"]), v=v, m=m)
+    else:
+        v = make_vector(rng, 2 ** rng.randint(1, 4), "numeric", True)
+        src = dict(src="load", container=rng.choice(["list", "nparray", "matrix"]), v=v)
+    script = []
+    with tempfile.TemporaryDirectory() as d:
+        try:
+            construct, _ = build_source(src, d)
+        except Exception:
+            return None
+        objs = []
+        plan = ["new", "op", "new"] + [("new" if rng.random() < 0.3 else "op") for _ in range(rng.randint(1, 9))]
+        for what in plan:
+            if what == "new" or not objs:
+                if len([1 for x in script if x["do"] == "new"]) >= 4:
+                    continue
+                script.append(dict(do="new"))
+                st, wf = outcome(construct)
+                # steer on a detached copy, so that generating never writes into anything the constructor might share
+                objs.append(copy.deepcopy(wf) if st == "ok" else None)
+                continue
+            live = [j for j, o in enumerate(objs) if o is not None]
+            if not live:
+                continue
+            j = rng.choice(live)
+            op = None
+            for _ in range(20):
+                op = gen_op(rng, snapshot(objs[j]))
+                if op["op"] != "bind":
+                    break
+            if op is None or op["op"] == "bind":
+                continue
+            script.append(dict(do="op", obj=j, op=op))
+            apply_op(objs[j], op)
+    return dict(kind="multi", source=src, script=script)
+
 def gen(rng, tier):
     scale = {"quick": 1, "search": 1, "thorough": 20}.get(tier, 1)
     for _ in range(320 * scale):
         yield gen_history(rng)
+    # several objects from the same constructor call, assignments on one of them in between
+    for _ in range(110 * scale):
+        m = gen_multi(rng)
+        if m is not None:
+            yield m
     # F12 shape: rejected slice assignments into numpy-backed objects
     for _ in range(40 * scale):
         nq = rng.choice([1, 2, 2, 3, 4])
@@ -590,7 +700,103 @@ def run_dicke(inp):
     return dict(chk=chk, oracle_ok=ok, oracle_msg="" if ok else f"dicke_state({n},{k}): support {support[:20]} values {sorted(vals, key=abs)[:3]}",
                 kind="dicke", nontrivial=0 < k < n)
 
-RUN = dict(history=run_history, create=run_create, probs=run_probs, flip=run_flip, ordering=run_ordering,
+
+def dicke_msg(src, sn):
+    n, k = src["n"], src["k"]
+    a = sn["a"]
+    want = [i for i in range(2 ** n) if bin(i).count("1") == k]
+    sup = [i for i, x in enumerate(a) if not is_sym(x) and norm2(x) != 0]
+    if len(a) != 2 ** n or sup != want or any(is_sym(x) for x in a):
+        return f"dicke_state({n},{k}) has support {sup} instead of {want}"
+    vals = {tuple(a[i]) for i in sup}
+    if len(vals) != 1 or parts(a[sup[0]])[1] != 0 or parts(a[sup[0]])[0] <= 0:
+        return f"dicke_state({n},{k}) amplitudes on the support are not one positive value: {sorted(vals)[:3]}"
+    if abs(norm2(a[sup[0]]) * len(sup) - 1) > Fraction(1, 10 ** 9):
+        return f"dicke_state({n},{k}) gives probability {float(norm2(a[sup[0]]))} to each of {len(sup)} states"
+    return ""
+
+def run_multi(inp):
+    src, script = inp["source"], inp["script"]
+    msgs = []
+    objs = []          # dict(wf, sn0, prev, ops, exp)
+    n_ok = n_err = n_late = 0
+    with tempfile.TemporaryDirectory() as d:
+        construct, recv = build_source(src, d)
+        recv0 = snapshot(recv) if recv is not None else None
+        first = None
+        for k, stp in enumerate(script):
+            touched = None
+            if stp["do"] == "new":
+                st, wf = outcome(construct)
+                new = dict(wf=wf if st == "ok" else None, sn0=None, prev=None, ops=[], exp=[], err=None if st == "ok" else wf)
+                if st == "ok":
+                    new["sn0"] = new["prev"] = snapshot(wf)
+                    im = inv_msg(new["sn0"])
+                    if im:
+                        msgs.append(f"step {k}: newly constructed object {len(objs)}: {im}")
+                    if src["src"] == "dicke":
+                        dm = dicke_msg(src, new["sn0"])
+                        if dm:
+                            msgs.append(f"step {k}: construction number {len(objs) + 1}: {dm}")
+                    if first is None:
+                        first = new["sn0"]
+                    elif new["sn0"] != first:
+                        msgs.append(f"step {k}: construction number {len(objs) + 1} of the same call holds {new['sn0']['a']}, "
+                                    f"the first one held {first['a']}")
+                    if any(o["ops"] and any(x is not None for x in o["ops"]) for o in objs):
+                        n_late += 1
+                else:
+                    if new["err"] != "ValueError":
+                        return dict(chk="false", oracle_ok=False, oracle_msg=f"step {k}: constructor raised {wf}", kind="multi")
+                    if first is not None or src["src"] in ("dicke", "zero", "list", "load"):
+                        msgs.append(f"step {k}: construction number {len(objs) + 1} of {src} raised {wf}"
+                                    + (" although the same call succeeded before" if first is not None else ""))
+            else:
+                j = stp["obj"]
+                if j >= len(objs) or objs[j]["wf"] is None:
+                    continue
+                touched = j
+                st, res = apply_op(objs[j]["wf"], stp["op"])
+                if st != "ok" and OUT.get(res) is None:
+                    return dict(chk="false", oracle_ok=False, oracle_msg=f"step {k} {stp} raised {res}", kind="multi")
+            for i, o in enumerate(objs):
+                if o["wf"] is None:
+                    continue
+                after = snapshot(o["wf"])
+                if i == touched:
+                    o["ops"].append(stp["op"])
+                    if st == "ok":
+                        n_ok += 1
+                        o["exp"].append(cpair("Ok", state_coq(after)))
+                    else:
+                        n_err += 1
+                        o["exp"].append(cpair(OUT[res], state_coq(after)))
+                        if after != o["prev"]:
+                            msgs.append(f"step {k}: {stp['op']} on object {i} raised {res} but changed it from {o['prev']['a']} to {after['a']}")
+                    im = inv_msg(after)
+                    if im:
+                        msgs.append(f"step {k}: object {i} after {stp['op']}: {im}")
+                else:
+                    o["ops"].append(None)
+                    o["exp"].append(cpair("Ok", state_coq(after)))
+                    if after != o["prev"]:
+                        what = f"an assignment to object {touched}" if touched is not None else "constructing another object"
+                        msgs.append(f"step {k}: {what} changed object {i} from {o['prev']['a']} to {after['a']}")
+                o["prev"] = after
+            if stp["do"] == "new":
+                objs.append(new)
+        if recv is not None and snapshot(recv) != recv0:
+            msgs.append(f"the receiver / saved object changed from {recv0['a']} to {snapshot(recv)['a']}")
+    terms = []
+    for o in objs:
+        v_d = (o["sn0"] or first or dict(a=[]))["a"] if src["src"] == "dicke" else None
+        ops = clist(o["ops"], lambda x: "None" if x is None else f"(Some {op_coq(x)})")
+        crt = f"(Some {state_coq(o['sn0'])})" if o["sn0"] else "None"
+        terms.append(f"({source_coq(src, v_d)}, {ops}, {crt}, {clist(o['exp'])})")
+    return dict(chk=f"multi_eqb {clist(terms)}", oracle_ok=not msgs, oracle_msg="; ".join(msgs[:3]),
+                kind="multi-" + src["src"], nontrivial=len(objs) >= 2 and n_ok >= 1 and n_late >= 1)
+
+RUN = dict(multi=run_multi, history=run_history, create=run_create, probs=run_probs, flip=run_flip, ordering=run_ordering,
            flipwf=run_flipwf, saveload=run_saveload, dicke=run_dicke)
 
 def run_case(inp):
